@@ -5,7 +5,7 @@ import random
 VARS = ["a", "b", "c", "d"]
 LITS = ["'s1'", "'s2'", "'lit'", '"q"']
 CALLEES = ["g", "h"]
-METHODS = ["trim", "concat", "substring", "replace", "toUpperCase", "slice", "foo", "push", "call"]
+METHODS = ["trim", "concat", "substring", "replace", "toUpperCase", "slice", "foo", "push", "at"]
 
 
 def expr(rng, depth):
@@ -22,6 +22,8 @@ def expr(rng, depth):
         recv = expr(rng, depth - 1)
         if is_sum(recv):
             recv = "(%s)" % recv
+        if rng.random() < 0.4:
+            return "%s.%s()" % (recv, rng.choice(METHODS))
         return "%s.%s(%s)" % (recv, rng.choice(METHODS), expr(rng, depth - 1))
     callee = rng.choice(CALLEES) if rng.random() < 0.75 else "%s(%s)" % (rng.choice(CALLEES), expr(rng, depth - 2))
     return "%s(%s)" % (callee, expr(rng, depth - 1))
